@@ -110,7 +110,9 @@ static Content instantiate(const std::string n[3], int v1, int v2, int r1, int r
   };
   c.def[1] = expr(v1, REFS[r1][0], REFS[r1][1]);
   c.def[2] = expr(v2, REFS[r2][0], REFS[r2][1] == 2 ? 1 : REFS[r2][1]);     // D2 may mention X1 and D1
-  c.conv[0] = "basic";
+  c.conv[0] = "basic, compare " + n[1] + " and " + n[2] + " (not D19)";   // X1 never depends formally on D1/D2; D19 merely contains D1
+  c.conv[1] = "subsets of " + n[0] + " (not X19)";
+  c.conv[2] = "unlike " + n[1] + ", over " + n[0];
   c.term[0] = "set";
   c.term[1] = "first @{" + n[0] + "|nomn}";
   c.term[2] = "second @{" + n[1] + "|sing,gent} and @{" + n[0] + "|plur}";
